@@ -124,6 +124,16 @@ def _roundtrip(case, V, st):
                 g2.loadFromFile(W, 40)
                 if not np.array_equal(g2.getAllData(), _gfield(l, dtype)):
                     probs.append('loadFromFile:requested-time')
+                # the loaded field must be the grid's field from now on: change layout and come back
+                g2.loadFromFile(W, 0)
+                g2.loadFromFile(W)
+                other2 = [x for x in LAYS if x != lay][-1]
+                g2.setLayout(other2)
+                if not np.array_equal(g2.getAllData(), _gfield(g2.getLayout(other2), dtype)):
+                    probs.append('loadFromFile:field-lost-on-layout-change')
+                g2.setLayout(lay)
+                if not np.array_equal(g2.getAllData(), _gfield(l, dtype)):
+                    probs.append('loadFromFile:field-lost-on-layout-change')
                 # layout wanted by the caller differs from the stored one
                 other = [x for x in LAYS if x != lay][0]
                 g4, c4, t4 = setupFromFile(W, comm=MPI.COMM_WORLD, dtype=dtype, layout=other)
